@@ -25,6 +25,12 @@ func init() {
 	extraIntrinsics["verifParseHCL"] = intrParseHCL
 	extraIntrinsics["verifStretch"] = intrStretch
 	extraIntrinsics["verifAnyPos"] = intrAnyPos
+	extraIntrinsics["verifCursorTag"] = func(in *interp, fr *frame, fn *ssa.Function, args []value) value {
+		if s, ok := in.opaque["cursor-tag"].(string); ok && in.opaque["cursor-tag-path"] == in.p {
+			return s
+		}
+		return ""
+	}
 	extraIntrinsics["verifRealPos"] = intrRealPos
 	extraIntrinsics["verifRealRange"] = intrRealRange
 	extraIntrinsics["verifFileLen"] = intrFileLen
@@ -560,6 +566,8 @@ func intrAnyPos(in *interp, fr *frame, fn *ssa.Function, args []value) value {
 	cb := p.newVar("cursor.byte", sInt)
 	p.assume(tEq(cb, byt))
 	p.note("cursor-region:" + r.what)
+	in.opaque["cursor-tag"] = fmt.Sprintf("@r%d", ri)
+	in.opaque["cursor-tag-path"] = in.p
 	return in.posValue(line, col, cb)
 }
 
